@@ -12,9 +12,9 @@ extern "C" {
 #define VP_MAXDIM 9
 #endif
 
-enum { L_MUL, L_T, L_EYE, L_TRI, L_DIAG, L_TRIL, L_TRIU, L_TALL, L_WIDE, L_SQUARE, L_INNER1, L_3DIFF, L_REALS, L_SIGNED_ZERO, L_TALL2, L_LARGE_DIM, L_WIDE_EXP };
+enum { L_MUL, L_T, L_EYE, L_TRI, L_DIAG, L_TRIL, L_TRIU, L_TALL, L_WIDE, L_SQUARE, L_INNER1, L_3DIFF, L_REALS, L_SIGNED_ZERO, L_TALL2, L_LARGE_DIM, L_WIDE_EXP, L_ALIASED };
 static char const *const labels[] = {"product", "transpose", "eye", "tri_ones", "diag", "triL", "triU", "rows_gt_cols", "cols_gt_rows", "square",
-                                     "inner_dimension_1", "three_pairwise_different_dims", "real_valued_contents", "signed_zero_in_contents", "rows_ge_cols_plus_2", "dimension_ge_15_up_to_140", "wide_exponent_contents", nullptr};
+                                     "inner_dimension_1", "three_pairwise_different_dims", "real_valued_contents", "signed_zero_in_contents", "rows_ge_cols_plus_2", "dimension_ge_15_up_to_140", "wide_exponent_contents", "product_operands_share_storage", nullptr};
 static char const *const metrics[] = {"max_product_error_over_bound", nullptr};
 static uint8_t const dict[] = {0, 1, 2, 3, 8, 9};
 static vp_info const info = {"C09", "linalg", "", labels, metrics, 256, dict, sizeof(dict)};
@@ -150,12 +150,24 @@ static void run_case(Tape &t, Ctx &cx)
             fill(t, cx, X, cls);
             fill(t, cx, Y, cls);
             cx.log("%s: Z(%ux%u), inner %u, class %d\n", op == 0 ? "mulmm" : op == 1 ? "mulTm" : op == 2 ? "mulmT" : "mulTT", m, n, k, cls);
+            // both operands are read-only: they may share storage (A * A^T, A^T * A, A * A on one buffer); the smaller operand
+            // then is the leading part of the larger one
+            R const *xp = X.p, *yp = Y.p;
+            if (t.u8() % 4 == 0)
+            {
+                size_t nx = size_t(X.r) * X.c, ny = size_t(Y.r) * Y.c;
+                if (ny <= nx) { memcpy(Y.p, X.p, sizeof(R) * ny); yp = X.p; }
+                else { memcpy(X.p, Y.p, sizeof(R) * nx); xp = Y.p; }
+                cx.label(L_ALIASED);
+                cx.log("  operands share storage\n");
+                cx.hash.add(77);
+            }
             switch (op)
             {
-            case 0: a_real_mulmm(m, k, n, X.p, Y.p, Z.p); break;
-            case 1: a_real_mulTm(k, m, n, X.p, Y.p, Z.p); break;
-            case 2: a_real_mulmT(m, n, k, X.p, Y.p, Z.p); break;
-            default: a_real_mulTT(m, k, n, X.p, Y.p, Z.p); break;
+            case 0: a_real_mulmm(m, k, n, xp, yp, Z.p); break;
+            case 1: a_real_mulTm(k, m, n, xp, yp, Z.p); break;
+            case 2: a_real_mulmT(m, n, k, xp, yp, Z.p); break;
+            default: a_real_mulTT(m, k, n, xp, yp, Z.p); break;
             }
             cx.label(L_MUL);
             if (k == 1) { cx.label(L_INNER1); }
